@@ -140,6 +140,17 @@ def _is_intlike(x):
     return isinstance(x, (int, bool)) or (is_z3(x) and (z3.is_int(x)))
 
 
+def _split_coef(t):
+    """(Fraction c, core) with t = c * core; core None for a numeral"""
+    if z3.is_rational_value(t):
+        return Fraction(t.numerator_as_long(), t.denominator_as_long()), None
+    if z3.is_app(t) and t.decl().kind() == z3.Z3_OP_MUL and t.num_args() == 2 and z3.is_rational_value(t.arg(0)) \
+            and not z3.is_rational_value(t.arg(1)):
+        c = t.arg(0)
+        return Fraction(c.numerator_as_long(), c.denominator_as_long()), t.arg(1)
+    return Fraction(1), t
+
+
 def _arith(op, a, b):
     """a, b plain (no NS)"""
     if isinstance(a, float):
@@ -179,6 +190,28 @@ def _arith(op, a, b):
         return a + b
     if op == "-":
         return a - b
+    if op in ("*", "/") and z3.is_real(a) and z3.is_real(b):
+        # numeric factors are pulled to the front:  (c1 x) * (c2 y) = (c1 c2)(x y),  (c1 x) / (c2 y) = (c1/c2)(x / y)
+        # (an identity of real arithmetic, A1) -- two codings of one formula that differ only in where the constants
+        # sit (2/3 * x / y  vs  (2 x) / (3 y)) then yield the same term and are equal by congruence
+        ca, xa = _split_coef(a)
+        cb, xb = _split_coef(b)
+        if op == "/" and cb == 0:
+            return a / b
+        co = ca * cb if op == "*" else ca / cb
+        if xa is None and xb is None:
+            return z3.RealVal(str(co))
+        if xb is None:
+            core = xa
+        elif xa is None:
+            core = xb if op == "*" else z3.RealVal(1) / xb
+        else:
+            core = xa * xb if op == "*" else xa / xb
+        if co == 1:
+            return core
+        if co == 0:
+            return z3.RealVal(0)
+        return z3.RealVal(str(co)) * core
     if op == "*":
         return a * b
     if op == "/":
